@@ -133,6 +133,27 @@ def generate(rng, prop, tier):
             ops.append({"op": "set_backend", "client": c, "node": rng.choice(mine), "name": rng.choice(["builtin", "os_crypt", "any"])})
         else:
             ops.append({"op": "rng_mode", "mode": rng.choice(["pinned", "min", "max"])})
+    # scenario: a varying parent is used, then a child narrows only the window and is used (both ends of the range)
+    costed = [i for i, h in enumerate(hashers) if h in COST]
+    if costed and rng.random() < 0.35:
+        g = rng.choice(costed)
+        lo, hi = COST[hashers[g]]
+        d = rng.randint(lo + (hi - lo) // 3, hi - (hi - lo) // 3)
+        v = rng.choice([0.2, 0.5, max(1, (hi - lo) // 3)]) if hashers[g] not in ("bcrypt", "bcrypt_sha256", "django_bcrypt", "scrypt", "phpass") else 1
+        c = rng.randrange(nclients)
+        par = nnodes
+        sc = [{"op": "derive", "client": c, "parent": g, "settings": {"default_rounds": d, "vary_rounds": v, "min_rounds": lo, "max_rounds": hi}, "relaxed": False},
+              {"op": "rng_mode", "mode": rng.choice(["min", "max", "pinned"])},
+              {"op": "hash", "client": c, "node": par, "pw": "pw"},
+              {"op": "derive", "client": c, "parent": par, "settings": {"min_rounds": max(lo, d - max(1, (d - lo) // 3)), "max_rounds": min(hi, d + max(1, (hi - d) // 3))}, "relaxed": False},
+              {"op": "hash", "client": c, "node": par + 1, "pw": "pw"},
+              {"op": "rng_mode", "mode": rng.choice(["max", "min"])},
+              {"op": "hash", "client": c, "node": par + 1, "pw": "pw"},
+              {"op": "hash", "client": c, "node": par, "pw": "pw"}]
+        if rng.random() < 0.5:
+            sc[2], sc[3] = sc[3], sc[2]
+            sc[2] = dict(sc[2])
+        ops.extend(sc)
     return {"cfg": {"hashers": hashers, "clients": nclients, "seed": rng.getrandbits(32)}, "ops": ops}
 
 
